@@ -5,7 +5,8 @@
 //! them).  The scenario (threads, pairs, permits, guard style) is drawn from `shuttle::rand`, so it
 //! is part of the replayable schedule.
 //!
-//! usage: b1 run   --sched random|pct|dfs --seed S --iters N --out DIR [bounds...]
+//! usage: b1 unwind        (std primitives: a holder fails while holding guards; see `unwind_mode`)
+//!        b1 run   --sched random|pct|dfs --seed S --iters N --out DIR [bounds...]
 //!        b1 replay --file SCHEDULE [bounds...]
 //! Prints one JSON line with the outcome.  Exit 0 = no failure, 1 = failure found, 2 = usage.
 
@@ -27,26 +28,40 @@ pub mod verif_shim {
         pub static SPURIOUS_FIRED: AtomicUsize = AtomicUsize::new(0);
         pub static WAITS: AtomicUsize = AtomicUsize::new(0);
 
-        pub struct Mutex<T> {
-            inner: shuttle::sync::Mutex<T>,
+        /// `true`: the primitives are std's (mode `unwind`, outside any shuttle execution); `false`: shuttle's
+        pub static STD_BACKEND: std::sync::atomic::AtomicBool = std::sync::atomic::AtomicBool::new(false);
+
+        pub enum Mutex<T> {
+            Sh(shuttle::sync::Mutex<T>),
+            Std(std::sync::Mutex<T>),
+        }
+
+        pub enum Inner<'a, T> {
+            Sh(shuttle::sync::MutexGuard<'a, T>),
+            Std(std::sync::MutexGuard<'a, T>),
         }
 
         pub struct MutexGuard<'a, T> {
-            guard: Option<shuttle::sync::MutexGuard<'a, T>>,
-            mutex: &'a shuttle::sync::Mutex<T>,
+            guard: Option<Inner<'a, T>>,
+            mutex: &'a Mutex<T>,
         }
 
         impl<T> Mutex<T> {
             pub fn new(v: T) -> Self {
-                Mutex {
-                    inner: shuttle::sync::Mutex::new(v),
+                if STD_BACKEND.load(Ordering::Relaxed) {
+                    Mutex::Std(std::sync::Mutex::new(v))
+                } else {
+                    Mutex::Sh(shuttle::sync::Mutex::new(v))
                 }
             }
             pub fn lock(&self) -> Result<MutexGuard<'_, T>, ()> {
-                let g = self.inner.lock().map_err(|_| ())?;
+                let g = match self {
+                    Mutex::Sh(m) => Inner::Sh(m.lock().map_err(|_| ())?),
+                    Mutex::Std(m) => Inner::Std(m.lock().map_err(|_| ())?),
+                };
                 Ok(MutexGuard {
                     guard: Some(g),
-                    mutex: &self.inner,
+                    mutex: self,
                 })
             }
         }
@@ -54,31 +69,57 @@ pub mod verif_shim {
         impl<T> Deref for MutexGuard<'_, T> {
             type Target = T;
             fn deref(&self) -> &T {
-                self.guard.as_ref().unwrap()
+                match self.guard.as_ref().unwrap() {
+                    Inner::Sh(g) => g,
+                    Inner::Std(g) => g,
+                }
             }
         }
         impl<T> DerefMut for MutexGuard<'_, T> {
             fn deref_mut(&mut self) -> &mut T {
-                self.guard.as_mut().unwrap()
+                match self.guard.as_mut().unwrap() {
+                    Inner::Sh(g) => &mut *g,
+                    Inner::Std(g) => &mut *g,
+                }
             }
         }
 
-        pub struct Condvar {
-            inner: shuttle::sync::Condvar,
+        pub enum Condvar {
+            Sh(shuttle::sync::Condvar),
+            Std(std::sync::Condvar),
         }
 
         impl Condvar {
             pub fn new() -> Self {
-                Condvar {
-                    inner: shuttle::sync::Condvar::new(),
+                if STD_BACKEND.load(Ordering::Relaxed) {
+                    Condvar::Std(std::sync::Condvar::new())
+                } else {
+                    Condvar::Sh(shuttle::sync::Condvar::new())
                 }
             }
 
             pub fn wait<'a, T>(&self, mut guard: MutexGuard<'a, T>) -> Result<MutexGuard<'a, T>, ()> {
                 use shuttle::rand::Rng;
-                WAITS.fetch_add(1, Ordering::Relaxed);
                 let mutex = guard.mutex;
-                let inner = guard.guard.take().unwrap();
+                let inner = match guard.guard.take().unwrap() {
+                    Inner::Sh(g) => g,
+                    Inner::Std(g) => {
+                        let c = match self {
+                            Condvar::Std(c) => c,
+                            _ => unreachable!(),
+                        };
+                        let g = c.wait(g).map_err(|_| ())?;
+                        return Ok(MutexGuard {
+                            guard: Some(Inner::Std(g)),
+                            mutex,
+                        });
+                    }
+                };
+                let (cv, shm) = match (self, mutex) {
+                    (Condvar::Sh(c), Mutex::Sh(m)) => (c, m),
+                    _ => unreachable!(),
+                };
+                WAITS.fetch_add(1, Ordering::Relaxed);
                 let spurious = SPURIOUS_BUDGET.load(Ordering::Relaxed) > 0
                     && shuttle::rand::thread_rng().gen_bool(0.25);
                 if spurious {
@@ -87,24 +128,30 @@ pub mod verif_shim {
                     SPURIOUS_FIRED.fetch_add(1, Ordering::Relaxed);
                     drop(inner);
                     shuttle::thread::sleep(std::time::Duration::from_millis(0));
-                    let g = mutex.lock().map_err(|_| ())?;
+                    let g = shm.lock().map_err(|_| ())?;
                     return Ok(MutexGuard {
-                        guard: Some(g),
+                        guard: Some(Inner::Sh(g)),
                         mutex,
                     });
                 }
-                let g = self.inner.wait(inner).map_err(|_| ())?;
+                let g = cv.wait(inner).map_err(|_| ())?;
                 Ok(MutexGuard {
-                    guard: Some(g),
+                    guard: Some(Inner::Sh(g)),
                     mutex,
                 })
             }
 
             pub fn notify_one(&self) {
-                self.inner.notify_one()
+                match self {
+                    Condvar::Sh(c) => c.notify_one(),
+                    Condvar::Std(c) => c.notify_one(),
+                }
             }
             pub fn notify_all(&self) {
-                self.inner.notify_all()
+                match self {
+                    Condvar::Sh(c) => c.notify_all(),
+                    Condvar::Std(c) => c.notify_all(),
+                }
             }
         }
 
@@ -247,6 +294,81 @@ fn scenario(b: Bounds) {
     }
 }
 
+/// Mode `unwind` (std primitives, real threads, no schedule involved): a holder FAILS while it holds guards -
+/// the guards are dropped by the unwinding.  shuttle cannot run this: it treats every mutex release during
+/// `std::thread::panicking()` as the end of the execution and closes the mutex.  The outcome does not depend on
+/// the interleaving: once the failed holder is joined, every permit must be available again and a thread that was
+/// already waiting must proceed.  A hang is detected by a generous real-time limit that only a violation reaches.
+fn unwind_mode() -> Result<usize, String> {
+    use std::sync::mpsc;
+    use std::sync::Arc;
+    use std::time::Duration;
+    verif_shim::sync::STD_BACKEND.store(true, Ordering::SeqCst);
+    let mut cases = 0;
+    for permits in 1..=3usize {
+        for held in 1..=permits {
+            for style in 0..3u8 {
+                for waiter_first in [false, true] {
+                    cases += 1;
+                    let sem = Arc::new(Semaphore::new(permits as isize));
+                    let (tx, rx) = mpsc::channel::<()>();
+                    let (htx, hrx) = mpsc::channel::<()>();
+                    let (gtx, grx) = mpsc::channel::<()>();
+                    let s2 = sem.clone();
+                    let holder = std::thread::spawn(move || {
+                        let r = panic::catch_unwind(panic::AssertUnwindSafe(|| {
+                            let mut borrowed = Vec::new();
+                            let mut owned = Vec::new();
+                            for k in 0..held {
+                                let as_owned = match style {
+                                    0 => false,
+                                    1 => true,
+                                    _ => k % 2 == 1,
+                                };
+                                if as_owned {
+                                    owned.push(s2.clone().access_owned());
+                                } else {
+                                    borrowed.push(s2.access());
+                                }
+                            }
+                            htx.send(()).unwrap();
+                            grx.recv().unwrap();
+                            panic::resume_unwind(Box::new("holder failed")); // no panic hook, no output
+                        }));
+                        assert!(r.is_err());
+                    });
+                    hrx.recv().unwrap(); // the holder has its guards
+                    let s3 = sem.clone();
+                    let spawn_waiter = move || {
+                        std::thread::spawn(move || {
+                            for _ in 0..permits {
+                                s3.acquire(); // all of them: needs every permit the failed holder had
+                            }
+                            let _ = tx.send(());
+                        })
+                    };
+                    if waiter_first {
+                        let _w = spawn_waiter(); // (very likely) parked in acquire() when the holder fails
+                        std::thread::sleep(Duration::from_millis(2));
+                        gtx.send(()).unwrap();
+                        holder.join().unwrap();
+                    } else {
+                        gtx.send(()).unwrap();
+                        holder.join().unwrap();
+                        let _w = spawn_waiter();
+                    }
+                    if rx.recv_timeout(Duration::from_secs(20)).is_err() {
+                        return Err(format!(
+                            "deadlock: permits not available again after a holder failed while holding guards (permits={permits} held={held} style={style} waiter_first={waiter_first})"
+                        ));
+                    }
+                }
+            }
+        }
+    }
+    Ok(cases)
+}
+
 fn arg(args: &[String], name: &str, default: &str) -> String {
     args.iter()
         .position(|a| a == name)
@@ -275,6 +397,17 @@ fn main() {
     cfg.max_steps = shuttle::MaxSteps::FailAfter(200_000);
     let t0 = std::time::Instant::now();
     let mode = args[1].as_str();
+    if mode == "unwind" {
+        let r = unwind_mode();
+        println!(
+            "{{\"failed\": {}, \"executions\": {}, \"acquisitions\": 0, \"waits\": 0, \"spurious_fired\": 0, \"moved_guards\": 0, \"scen_hash\": 0, \"wall_s\": {:.3}, \"message\": \"{}\"}}",
+            r.is_err(),
+            r.as_ref().copied().unwrap_or(0),
+            t0.elapsed().as_secs_f64(),
+            r.as_ref().err().cloned().unwrap_or_default()
+        );
+        std::process::exit(if r.is_err() { 1 } else { 0 });
+    }
     let result = match mode {
         "run" => {
             let seed: u64 = arg(&args, "--seed", "1").parse().unwrap();
